@@ -19,7 +19,7 @@ func init() {
 		ID:          "C03",
 		Level:       "other",
 		Run:         runC03,
-		Explanation: "Structural rules over the pipelined variants: R03.1 who-may-write architectural state (Context.Registers/Memory are stored to only by non-scoreboard Context methods and by the variants' line write-back routines; Context writers are called only from write units, branch resolution and Run); R03.2 every write-unit commit is behind the sequence filter `execution.SequenceID > limit` with limit != -1, and from the variant where register results are renamed the write-unit step of a flush cycle receives the limit; R03.3 the pipeline flush reaches the flush/clean of every bus and unit (and bumps the sequence epoch where one is used); R03.4 before the flush, Run drains execute units holding older work with the limit installed and the execute unit's pre-step drops exactly the younger ones; R03.5 branch resolution: taken -> rollback with the branch's own id, not taken -> commit; R03.6 decode stalls after an unconditional jump until the target is reported; R03.7 stores reach a cache only sequence-guarded or gated on unresolved conditional branches; R03.8 the branch/memory classification tables agree with the opcode implementations; R03.10 the flush path contains no explicit panic; R03.11 every read of the memory image by a line fetch is bounded (a wrong-path load may fetch any address); R03.12 the branch unit never misses a flush (assert -> jump/conditionalBranch sets the flush flag whenever the resolved pc differs from the fetched one); R03.13 every dispatch path of the control unit maintains the flags that hold ret and stores behind an unresolved conditional branch; R03.17 the one-line-per-access data path tests the sign of an address before it selects a line with a truncating remainder (a wrong-path load can carry a negative address); R03.16 the wholesale commit at the resolution of a not-taken conditional branch is safe only if conditional branches resolve one at a time (held while an older one is unresolved) or the commit is bounded by the branch's sequence id; R03.15 a variant that writes results into the register file directly dispatches in order or holds every instruction while a conditional branch is unresolved; R03.14 the squash restores register state: Context.Rollback/RATRollback, the transactional writes and the tag-bounded rename-table lookups equal the reference model (spec/risc_state.go.txt). Does not decide that sequence ids order instructions correctly across loop iterations and epochs (a value question).",
+		Explanation: "Structural rules over the pipelined variants: R03.1 who-may-write architectural state (Context.Registers/Memory are stored to only by non-scoreboard Context methods and by the variants' line write-back routines; Context writers are called only from write units, branch resolution and Run); R03.2 every write-unit commit is behind the sequence filter `execution.SequenceID > limit` with limit != -1, and from the variant where register results are renamed the write-unit step of a flush cycle receives the limit; R03.3 the pipeline flush reaches the flush/clean of every bus and unit (and bumps the sequence epoch where one is used); R03.4 before the flush, Run drains execute units holding older work with the limit installed and the execute unit's pre-step drops exactly the younger ones; R03.5 branch resolution: taken -> rollback with the branch's own id, not taken -> commit; R03.6 decode stalls after an unconditional jump until the target is reported; R03.7 stores reach a cache only sequence-guarded or gated on unresolved conditional branches; R03.8 the branch/memory classification tables agree with the opcode implementations; R03.10 the flush path contains no explicit panic; R03.11 every read of the memory image by a line fetch is bounded (a wrong-path load may fetch any address); R03.12 the branch unit never misses a flush (assert -> jump/conditionalBranch sets the flush flag whenever the resolved pc differs from the fetched one); R03.13 every dispatch path of the control unit maintains the flags that hold ret and stores behind an unresolved conditional branch; R03.18 when a jump's target is resolved the branch target buffer is updated and the fetch redirected unconditionally (a buffer hit is never verified elsewhere); R03.17 the one-line-per-access data path tests the sign of an address before it selects a line with a truncating remainder (a wrong-path load can carry a negative address); R03.16 the wholesale commit at the resolution of a not-taken conditional branch is safe only if conditional branches resolve one at a time (held while an older one is unresolved) or the commit is bounded by the branch's sequence id; R03.15 a variant that writes results into the register file directly dispatches in order or holds every instruction while a conditional branch is unresolved; R03.14 the squash restores register state: Context.Rollback/RATRollback, the transactional writes and the tag-bounded rename-table lookups equal the reference model (spec/risc_state.go.txt). Does not decide that sequence ids order instructions correctly across loop iterations and epochs (a value question).",
 		Assumptions: []string{"sequence ids increase in program order within an epoch (not decided)"},
 		Trusted:     []string{"go/types", "role resolution (evidence.anchors)", "E-TERM opcode terms for the derived classification"},
 	})
@@ -994,6 +994,8 @@ func runC03(r *Run) {
 	ruleNestedSpeculation(r, "R03.16")
 	r.floor("R03.17", 3)
 	ruleNegativeAddresses(r, "R03.17")
+	r.floor("R03.18", 8)
+	ruleJumpResolutionRedirects(r, "R03.18")
 	// the squash restores the register state: rollback and the tag-bounded
 	// rename-table lookups equal the reference model
 	r.floor("R03.14", 6)
@@ -1473,5 +1475,92 @@ func ruleNegativeAddresses(r *Run, rule string) {
 			continue
 		}
 		r.check(signTests > 0, rule, v.rel+":negative-address", pos, "the data path selects lines with a truncating remainder (%d alignment functions); some site must test the sign of an address before a line is selected, because a wrong-path load can carry a negative address (sign tests found: %d)", aligns, signTests)
+	}
+}
+
+// ruleJumpResolutionRedirects (R03.18 / R07.16): a jump predicted through the branch
+// target buffer is never verified (a hit disarms the check), so the notification
+// sent when the jump's target is resolved is the only correction: it must record
+// the target and redirect the fetch unit UNCONDITIONALLY. A `jalr` whose target
+// changes (a subroutine called from two sites) otherwise keeps returning to the
+// first call site for ever.
+func ruleJumpResolutionRedirects(r *Run, rule string) {
+	w := r.W
+	for _, v := range variants(w) {
+		if v.pkg == nil || !v.pipelined() {
+			continue
+		}
+		info := v.info
+		for _, f := range v.pkg.Syntax {
+			for _, d := range f.Decls {
+				fd, ok := d.(*ast.FuncDecl)
+				if !ok || fd.Body == nil || fd.Recv == nil || fd.Type.Params == nil {
+					continue
+				}
+				// a method with two int32 parameters (pc, resolved target)
+				var params []types.Object
+				for _, fl := range fd.Type.Params.List {
+					for _, nm := range fl.Names {
+						if typeName(info.TypeOf(fl.Type)) == "int32" {
+							params = append(params, info.Defs[nm])
+						}
+					}
+				}
+				if len(params) != 2 {
+					continue
+				}
+				// calls in the body: reset(<target>, …) on a fetch unit and add(<pc>, <target>) on the buffer
+				type site struct {
+					top bool
+					pos token.Pos
+				}
+				var resets, adds []site
+				var visit func(n ast.Node, top bool)
+				visit = func(n ast.Node, top bool) {
+					ast.Inspect(n, func(m ast.Node) bool {
+						if m == nil || m == n {
+							return true
+						}
+						switch x := m.(type) {
+						case *ast.IfStmt, *ast.ForStmt, *ast.RangeStmt, *ast.SwitchStmt, *ast.FuncLit:
+							visit(x, false)
+							return false
+						case *ast.CallExpr:
+							sel, ok := x.Fun.(*ast.SelectorExpr)
+							if !ok || len(x.Args) == 0 {
+								return true
+							}
+							usesTarget := false
+							for _, a := range x.Args {
+								if id, ok := ast.Unparen(a).(*ast.Ident); ok && info.Uses[id] == params[1] {
+									usesTarget = true
+								}
+							}
+							if !usesTarget {
+								return true
+							}
+							switch sel.Sel.Name {
+							case "reset":
+								resets = append(resets, site{top, x.Pos()})
+							case "add":
+								adds = append(adds, site{top, x.Pos()})
+							}
+						}
+						return true
+					})
+				}
+				visit(fd.Body, true)
+				if len(resets) == 0 || len(adds) == 0 {
+					continue
+				}
+				good := true
+				for _, s := range append(resets, adds...) {
+					if !s.top {
+						good = false
+					}
+				}
+				r.check(good, rule, fmt.Sprintf("%s.%s:unconditional-redirect", v.rel, declName(fd)), fd.Pos(), "when a jump's target is resolved the branch target buffer is updated and the fetch unit redirected to the resolved target unconditionally (a buffer hit is never verified elsewhere)")
+			}
+		}
 	}
 }
